@@ -424,7 +424,7 @@ def _pescape(res, case):
 
 
 # file names around the table "File name parts" of `help syntax file-matcher` (every row of it, plus dot-files and names ending in a dot)
-NAMES = ['a.tar.gz', 'f.txt', 'f', 'f.', '.x.y', '.hidden', 'a..b', 'x.y.', 'UP.TXT']
+PART_NAMES = ['a.tar.gz', 'f.txt', 'f', 'f.', '.x.y', '.hidden', 'a..b', 'x.y.', 'UP.TXT']
 
 
 def _names(res, case):
@@ -435,14 +435,14 @@ def _names(res, case):
     seam = procseam.SEAM
     w.reset()
     seam.reset()
-    for n in NAMES:
+    for n in PART_NAMES:
         w.write('ah/root/' + n, '')
     idx = {'name': 0, 'stem': 1, 'suffixes': 2, 'suffix': 3}[kind]
-    val = {n: T.name_parts(n)[idx] for n in NAMES}
+    val = {n: T.name_parts(n)[idx] for n in PART_NAMES}
     values = sorted(set(val.values()))
     asserts = []
     if how == 'single':
-        for n in NAMES:
+        for n in PART_NAMES:
             for v in values:
                 m = "%s ~ '^%s$'" % (kind, re.escape(v))
                 asserts.append('exists -rel-act-home root/%s : %s%s' % (n, '' if val[n] == v else '! ', m))
@@ -450,10 +450,10 @@ def _names(res, case):
                 asserts.append("exists -rel-act-home root/%s : %s '%s'" % (n, kind, val[n].replace('[', '[[]')))
     else:
         for v in values:
-            want = sorted(n for n in NAMES if val[n] == v)
+            want = sorted(n for n in PART_NAMES if val[n] == v)
             m = "%s ~ '^%s$'" % (kind, re.escape(v))
             asserts.append('dir-contents -rel-act-home root : -selection %s matches -full {%s\n}' % (m, ''.join('\n  ' + n for n in want)))
-            asserts.append('dir-contents -rel-act-home root : -selection ( ! %s ) num-files == %d' % (m, len(NAMES) - len(want)))
+            asserts.append('dir-contents -rel-act-home root : -selection ( ! %s ) num-files == %d' % (m, len(PART_NAMES) - len(want)))
     text = '[conf]\nact-home = ah\n[act]\n[assert]\n' + '\n'.join(asserts) + '\n'
     o = cli.run_case(text)
     res.n += len(asserts)
